@@ -1575,10 +1575,19 @@ func (s *Server) sendLWT(cl *Client) {
 	}
 
 	if cl.Properties.Will.WillDelayInterval > 0 {
-		pk.Connect.WillProperties.WillDelayInterval = cl.Properties.Will.WillDelayInterval
-		pk.Expiry = time.Now().Unix() + int64(pk.Connect.WillProperties.WillDelayInterval)
-		s.loop.willDelayed.Add(cl.ID, pk)
-		return
+		// If this connection was taken over, the connection that replaced it has already decided the delayed
+		// will's fate: a resumed session cancels it [MQTT-3.1.3-9], a clean start ended the session so it is due now.
+		newer, ok := s.Clients.Get(cl.ID)
+		takenOver := ok && newer != cl && cl.IsTakenOver()
+		if takenOver && !newer.Properties.Clean {
+			return
+		}
+		if !takenOver {
+			pk.Connect.WillProperties.WillDelayInterval = cl.Properties.Will.WillDelayInterval
+			pk.Expiry = time.Now().Unix() + int64(pk.Connect.WillProperties.WillDelayInterval)
+			s.loop.willDelayed.Add(cl.ID, pk)
+			return
+		}
 	}
 
 	if pk.FixedHeader.Retain {
